@@ -986,7 +986,7 @@ func (self Value) MarshalTo(to *proto.TypeDescriptor, opts *Options) ([]byte, er
 	r.Buf = self.raw()
 	var from = self.Desc
 	messageLen := len(r.Buf)
-	if err := marshalTo(&r, w, from, to, opts, messageLen); err != nil {
+	if err := marshalTo(&r, w, from, to, opts, messageLen, 0); err != nil {
 		return nil, err
 	}
 	ret := make([]byte, len(w.Buf))
@@ -995,7 +995,12 @@ func (self Value) MarshalTo(to *proto.TypeDescriptor, opts *Options) ([]byte, er
 	return ret, nil
 }
 
-func marshalTo(read *binary.BinaryProtocol, write *binary.BinaryProtocol, from *proto.TypeDescriptor, to *proto.TypeDescriptor, opts *Options, massageLen int) error {
+// depth is the number of messages the message to read is nested in
+func marshalTo(read *binary.BinaryProtocol, write *binary.BinaryProtocol, from *proto.TypeDescriptor, to *proto.TypeDescriptor, opts *Options, massageLen int, depth int) error {
+	// one level of recursion per nested message: unlimited nesting overflows the stack
+	if depth >= binary.MaxDepth {
+		return wrapError(meta.ErrStackOverflow, "", nil)
+	}
 	tail := read.Read + massageLen
 	for read.Read < tail {
 		fieldNumber, wireType, _, _ := read.ConsumeTag()
@@ -1046,7 +1051,9 @@ func marshalTo(read *binary.BinaryProtocol, write *binary.BinaryProtocol, from *
 				return wrapError(meta.ErrRead, "", err)
 			}
 			write.Buf, pos = binary.AppendSpeculativeLength(write.Buf)
-			marshalTo(read, write, fromDesc, toDesc, opts, subMessageLen)
+			if err := marshalTo(read, write, fromDesc, toDesc, opts, subMessageLen, depth+1); err != nil {
+				return err
+			}
 			write.Buf = binary.FinishSpeculativeLength(write.Buf, pos)
 		} else {
 			start := read.Read
